@@ -7,7 +7,7 @@ ID = "C06"
 LEVEL = "proof"
 TRUSTED = dc.TRUSTED
 ASSUMPTIONS = ["DATA-reader part; BDAT accounting and the SIZE parameter are tied by the conv/mailargs probes"]
-RULE = ("conv probe: DATA bodies with limits |body|-1..|body|+1, BDAT chunk sequences totalling N-2..N+2 and 3N for N in {5,10}, second transactions within the limit after a completed / abandoned / exactly-N chunked transfer on the same connection (no 552 may appear), declared SIZE in {N-1,N,N+1,2^32-1,2^32,0}, SMTP and LMTP; dr probe with a size budget: exhaustive transition table for budget 0, 1 and 3; every stream over "
+RULE = ("conv probe: DATA bodies with limits |body|-1..|body|+1, BDAT chunk sequences totalling N-2..N+2 and 3N for N in {5,10}, second transactions within the limit after a completed / abandoned / exactly-N chunked transfer on the same connection (no 552 may appear), declared SIZE in {N-1,N,N+1,2^32-1,2^32,0}, BDAT size arguments 2^32..2^64 and beyond inside a transaction, SMTP and LMTP; dr probe with a size budget: exhaustive transition table for budget 0, 1 and 3; every stream over "
         "{'.',CR,LF,'a'} up to the tier's length x limits {1, |body|-2..|body|+2, far above} x read schedules; random "
         "256-valued streams with random limits. non-trivial = limited reader and stream containing '.', CR or LF")
 THEOREMS = ["C06_bound_data", "C06_oversize_never_complete", "C06_transparent", "data_monitor_accepts_model"]
@@ -48,6 +48,21 @@ def size_convs(tier, rng):
                               **(dict(DATA=g.ddec(rsz=rng.choice([1, 3, 4096]))) if i == 0 else {}))
                     P.markers(c)
                     cases.append(c.case(seg=rng.choice(["one", "line", "rand"]), rng=rng))
+    # enormous and overflowing chunk sizes: nothing of the accounting may wrap around
+    for N in (5, 10):
+        for lm in (0, 1):
+            for huge in (2**32, 2**63 - 1, 2**63, 2**64 - 5, 2**64 - 1, 2**64, 10**30, 2**32 + 3):
+                for first in (0, 2):
+                    for over in (1, 5, 100):
+                        c = g.Conv(dict(maxmsg=N, lmtp=lm))
+                        P.envelope(c, bool(lm))
+                        started = False
+                        if first:
+                            c.add(b"BDAT %d\r\n" % first + b"f" * first, DATA=g.ddec()); started = True
+                        c.add(b"BDAT %d\r\n" % huge)
+                        c.add(b"BDAT %d LAST\r\n" % (N - first + over) + b"z" * (N - first + over), **({} if started else dict(DATA=g.ddec())))
+                        P.markers(c)
+                        cases.append(c.case(seg=rng.choice(["one", "line"]), rng=rng))
     # connection histories: an earlier chunked transfer (completed / abandoned by RSET / refused) must not count
     # against the next message; every message here is within the limit, so no 552 may appear at all ("fits")
     for N in (5, 10):
